@@ -102,6 +102,14 @@ def run(env, tier, seed, broken=None):
         cid = 'q%d' % n; n += 1
         cases.append({'id': cid, 'src': src, 'repeat': 3 if n % 5 == 0 else 0})
         expect[cid] = (out, err)
+    for ka, kb in itertools.permutations(KEYS_, 2):
+        for order in (0, 1):
+            s = [(('lit', 3), 'o', 'q'), (('write', ka), 'o', 'q'), (('list', None), 'o', 'q')]
+            s += [(('del', ka), 'o', 'q'), (('write', kb), 'o', 'q')] if order == 0 else [(('write', kb), 'o', 'q'), (('del', ka), 'o', 'q')]
+            s += [(('list', None), 'o', 'q'), (('list', None), 'p', 'o')]
+            src, out, err = program(tuple(s))
+            cid = 'q%d' % n; n += 1
+            cases.append({'id': cid, 'src': src}); expect[cid] = (out, err)
     # 8-key objects: listing order stable and consistent over repetitions
     big = '%s o = {h: 8, a: 1, g: 7, b: 2, f: 6, c: 3, e: 5, d: 4};\n%s %s(o);\n%s %s(o);\n%s o;\n%s(o, "c");\no.z = 9;\n%s %s(o);\n%s %s(o);\n' % (
         VAR, PRINT, KEYS, PRINT, VALUES, PRINT, DELETE, PRINT, KEYS, PRINT, VALUES)
